@@ -14,6 +14,9 @@
 #define SIM_SET_REMATCH 1
 #endif
 
+#if SIM_SET == 4
+#define SIM_SET_TREEOPS 1
+#endif
 #if SIM_SET == 5
 #define SIM_SET_PRIVSTATE 0
 #define SIM_COVERAGE_LAZY 1
